@@ -59,7 +59,8 @@ CLAIMS.update({
         engine="verus-lexer", category="proof", design_ref="DESIGN.md §4 C13",
         technique="Verus requires/ensures/invariant/decreases on the FEA lexer extracted mechanically from the real source each run (unbounded input length), plus a bounded Kani companion on the unextracted lexer for concrete counterexamples",
         text=("The lexer half of the statement is proved for every input length: each of the 18 lexer functions is total (all index/arithmetic obligations), every loop decreases |input|-pos (no hang), and next_token satisfies "
-              "T1 lexemes tile the input (lossless), T2 progress, T3 Eof exactly at end of input. A tiling lemma lifts T1-T3 to a driver loop. "
+              "T1 lexemes tile the input (lossless), T2 progress, T3 Eof exactly at end of input, T4 lexemes end on character boundaries; a verified driver theorem lifts them to 'lexeme lengths sum to |input|'. "
+              "Three no-panic kernels of the parser's plumbing are proved completely with Kani: TokenSet (the recovery sets) is a correct bit set for all 125 lexer kinds and all u128 sets, and Kind::to_token_kind is total for every kind the parser can forward. "
               "The parser, tree sink, rewrite step, validation and include resolution are NOT under contract (Arc/SmolStr/trait-object code): that every lexeme is forwarded exactly once to the tree is an assumption."),
         note="Trusted: Verus + bundled Z3; five assume_specification lines for std functions; usize = 64 bit; |input| <= 2^63-16; the str -> [u8] rewrite (UTF-8 validity becomes an explicit hypothesis where needed); "
              "Kind::from_keyword is external_body with the assumed contract 'never Eof', itself checked by a bounded Kani harness; the extraction's logged rewrites (diff shipped vs verified is written on every run). " + _KANI_NOTE,
